@@ -345,6 +345,7 @@ class Server(object):
     self.port = port
     self.reachable = reachable        # bool or callable(now) -> True | False | 'hang'
     self.conns = []
+    self.connect_delay = 0            # ticks a successful connect takes
     self.connect_log = []             # (time, outcome)
 
   def is_reachable(self, now):
@@ -402,6 +403,11 @@ class FakeG(object):
       REvent().wait()     # never returns
     if not r:
       raise _socket.error(111, 'Connection refused')
+    d = getattr(srv, 'connect_delay', 0)
+    if d:
+      vsleep(d * TICK)
+      if self._closed:
+        raise _socket.error(9, 'Bad file descriptor')
     self._connected = True
     cid = next(w.conn_ids)
     self._conn = Conn(w, self.port, cid, self)
